@@ -233,7 +233,7 @@ func (env *Env) ident(id *ast.Ident) Val {
 		case *types.Nil:
 			return Val{IsNil: true}
 		case *types.Func:
-			return Val{T: Term{"fn:" + env.c.eng.keyOfFunc(o), "Func"}, GoT: o.Type()}
+			return env.funcVal(o)
 		}
 		if name == "true" || name == "false" {
 			return Val{T: tBool(name == "true")}
@@ -274,7 +274,7 @@ func (env *Env) pkgObject(o types.Object, pos token.Pos) Val {
 	case *types.Var:
 		return env.global(oo)
 	case *types.Func:
-		return Val{T: Term{"fn:" + env.c.eng.keyOfFunc(oo), "Func"}, GoT: oo.Type()}
+		return env.funcVal(oo)
 	case *types.TypeName:
 		return Val{T: Term{"type:" + oo.Name(), "Type"}, GoT: oo.Type()}
 	}
@@ -1353,4 +1353,11 @@ func (env *Env) compositeLit(x *ast.CompositeLit) Val {
 // evalLitElem evaluates an element of a composite literal; elided types are taken from elemT.
 func (env *Env) evalLitElem(el ast.Expr, elemT types.Type) Val {
 	return env.eval(el)
+}
+
+// funcVal: a function used as a value is an opaque constant of sort Func.
+func (env *Env) funcVal(o *types.Func) Val {
+	name := "fn." + strings.NewReplacer(":", ".", " ", "", "(", "", ")", "", "*", "").Replace(env.c.eng.keyOfFunc(o))
+	env.c.declOnce(fmt.Sprintf("(declare-const %s Func)", name))
+	return Val{T: Term{name, "Func"}, GoT: o.Type()}
 }
